@@ -1,6 +1,7 @@
 from vdriver import Job
+from props import seqcases
 
-LEVEL = "proof"
+LEVEL = "other"
 EXPLANATION = "cmp is decided per function against its mathematical order"
 TRUSTED = []
 LEVEL_TEXT = "placeholder"
@@ -29,4 +30,5 @@ def jobs(tier):
         J.append(Job("C09.dispatch.%s" % h[2:], "C09", "K2", "Cmp/dispatch.c", h, ["cmp", "eq", "neq", "lt", "gt", "le", "ge", "Type_Instance", "Type_Scan", "Type_Of", "c_int", "c_float", "Int_Cmp", "Float_Cmp"],
                      link=DL + ["src/Pointer.c"], also=["C12"], replace_calls=["exception_throw:cv_throw"], unwind=12, group="C09.dispatch.k2",
                      replay="C09_int_cmp.c" if "int" in h else "C09_float_cmp.c"))
+    J += seqcases.array_jobs(tier, "C09")
     return J
